@@ -49,7 +49,10 @@ def c09_1(ctx):
     if not info['anchored_start']:
         ctx.fail(fn, fn.node, 'period regex is not anchored at the start: a token could be matched in the middle of the tenor')
     items = info['items']
-    ctx.need(len(items) == 3, 'period regex no longer has the form sign? digits+ unit (got %d parts)' % len(items))
+    if len(items) != 3:
+        ctx.fail(fn, fn.node, 'the period regex `%s` is no longer exactly sign? digits+ unit (%d parts): whatever else it admits is taken for a tenor by is_bump/dt before date parsing, and the dispatch slices the count as bmp[:-1]' % (pat_text, len(items)),
+                 stmt='period = %s' % pat_text, witness="dt('05 Dec 2021') / dt_bump(t, '3 m')")
+        return
     sign, digits, unit = items
     ctx.count(1)
     if not (sign.get('chars') == set('-+') and sign['min'] == 0 and sign['max'] == 1):
@@ -292,6 +295,21 @@ def c09_3(ctx):
             break
         if isinstance(s, ast.Assign) and N(s.value) == 'int(bmp[:-1])':
             pre.append(s)
+    # DEF-USE: everything the branch reads must be the parameters of THIS part (the running date t, the token bmp) or be computed from
+    # them inside the same iteration; a value computed once before the token loop is stale for every later part of a compound tenor
+    inside = {id(n) for s in pre + body for n in ast.walk(s)}
+    outer_defs = {n.id for s in fn.body for n in ast.walk(s) if isinstance(n, ast.Name) and isinstance(n.ctx, ast.Store) and id(n) not in inside}
+    first_store = {}
+    for s in pre + body:
+        for n in ast.walk(s):
+            if isinstance(n, ast.Name) and n.id not in first_store:
+                first_store[n.id] = isinstance(n.ctx, ast.Store)
+    for nm, stored_first in first_store.items():
+        if not stored_first and nm in outer_defs and nm not in ('t', 'bmp', 'bump', 'DAY') and nm not in fn.params:
+            ctx.count(1)
+            ctx.fail(fn, body[0], "the 'b' branch reads `%s`, which is computed outside the token loop: in a compound tenor the second part would use the value of the first (e.g. the weekday the tenor started from)" % nm,
+                     witness="dt_bump(thursday, '1d1b')", stmt="'b' branch reads %s" % nm)
+            return
     bad = []
     for s0 in range(7):
         for r in range(5):
